@@ -155,7 +155,7 @@ func c11(c *ctx) {
 		// the header hashed is the one ApplyBlock returned for the very block given
 		for _, cs := range callsIn(applyAndValidate, false, setHashFn) {
 			p := c.p.path(recvOf(cs))
-			r.Check(strings.HasSuffix(p, ".ApplyBlock(context.Background(),$1,false)#0") || strings.Contains(p, ".ApplyBlock(") && strings.HasSuffix(p, "#0"), "R3/ApplyAndValidateBlock/hashed-header", c.p.Pos(cs.Pos()), "hashes the recomputed header", "the hash compared with the candidate is taken from "+p+", not from the header ApplyBlock recomputed")
+			r.Check(hasSuffix(p, ".ApplyBlock(context.Background(),$1,false)#0") || has(p, ".ApplyBlock(") && hasSuffix(p, "#0"), "R3/ApplyAndValidateBlock/hashed-header", c.p.Pos(cs.Pos()), "hashes the recomputed header", "the hash compared with the candidate is taken from "+p+", not from the header ApplyBlock recomputed")
 		}
 		c.mpt(mptSpec{
 			rule: "R3", fn: validateProposal, events: evSet{"ApplyAndValidateBlock": {applyAndValidate}, "Equals": {certEquals}},
@@ -164,7 +164,7 @@ func c11(c *ctx) {
 		})
 		for _, cs := range callsIn(validateProposal, false, certEquals) {
 			a, b := c.p.path(recvOf(cs)), c.p.path(argOf(cs, 0))
-			r.Check(a == "$2.Results" && strings.Contains(b, ".NewCertificateResults("), "R3/ValidateProposal/equals-operands", c.p.Pos(cs.Pos()), "certificate results compared with the locally recomputed ones", "ValidateProposal compares "+a+" with "+b+", expected qc.Results against NewCertificateResults(...)")
+			r.Check(a == "$2.Results" && has(b, ".NewCertificateResults("), "R3/ValidateProposal/equals-operands", c.p.Pos(cs.Pos()), "certificate results compared with the locally recomputed ones", "ValidateProposal compares "+a+" with "+b+", expected qc.Results against NewCertificateResults(...)")
 		}
 	}
 
